@@ -17,11 +17,11 @@ def Ops.eqv (a b : α) : Prop := o.le a b ∧ o.le b a
 def Ext (o : Ops α) (R : α → Prop) (a : α) : Prop := R a ∨ a = o.negInf ∨ a = o.inf
 
 /-- What the proof of the normalisation clause assumes of the arithmetic.  `R` singles out the
-    regular (finite, non-NaN) values.  Exact rational arithmetic satisfies all of it (`eratLaws`);
-    IEEE binary32 with `R` = finite satisfies it as well (comparison is a strict weak order on
-    non-NaN values, correctly rounded subtraction is monotone, `x - x = 0`, `x / x = 1`, and
-    `0 ≤ a ≤ r` gives `0 ≤ a / r ≤ 1` because rounding is monotone and 0, 1 are representable) —
-    that instance is NOT proved here, it is sampled by the harness. -/
+    regular (finite, non-NaN) values.  Two instances are proved: exact rational arithmetic
+    (`eratLaws`, MvProps/C37Lemmas.lean) and IEEE binary32 with `R` = finite (`Mv.F32.f32Laws`,
+    MvProps/C37F32.lean: comparison is a strict weak order on non-NaN values, correctly rounded
+    subtraction is monotone, `x - x = 0`, `x / x = 1`, and `0 ≤ a ≤ r` gives `0 ≤ a / r ≤ 1`
+    because rounding is monotone and 0, 1 are representable). -/
 structure Laws (R : α → Prop) : Prop where
   not_nan : ∀ a, R a → o.isNaN a = false
   inf_not_nan : o.isNaN o.inf = false ∧ o.isNaN o.negInf = false
